@@ -4,7 +4,7 @@ set -e
 cd "$(dirname "$0")"
 /venv/bin/python -m compileall -q harness >/dev/null
 for f in spec/*.tla; do
-  case "$f" in spec/Trace_Model.tla|spec/MC_core.tla) continue;; esac   # need per-run generated table modules
+  case "$f" in spec/Trace_Model.tla|spec/MC_core.tla|spec/Hostile.tla|spec/Judge_Hostile.tla|spec/Trace_Stream.tla) continue;; esac   # need per-run generated table modules
   out=$(cd spec && tla-sany "$(basename "$f")" 2>&1) || { echo "$out"; exit 1; }
   echo "$out" | grep -q "Semantic errors\|Parse Error\|Fatal" && { echo "$out"; exit 1; }
 done
